@@ -91,9 +91,6 @@ I1R == I0 \cup IntLevelR(I0, P0)
 B1R == B0 \cup BoolLevelR(I0, B0, P0)
 I2R == I1R \cup IntLevelR(I1R, P0)
 B2R == B1R \cup BoolLevelR(I1R, B1R, P0)
-I3R == I2R \cup IntLevelR(I2R, P0)
-B3R == B2R \cup [k : {"bin"}, op : CmpOps \cup EqOps, l : I2R, r : I2R] \cup [k : {"un"}, op : {"not"}, e : B2R]
-           \cup [k : {"bin"}, op : LogOps, l : B1R, r : B2R] \cup [k : {"bin"}, op : LogOps, l : B2R, r : B1R]
 
 \* Operator triples: every well-typed tree with exactly n operator nodes (unary or binary); the
 \* leaves are holes, numbered afterwards from left to right so that every operand is a different
@@ -288,16 +285,25 @@ Shape(e) == IF PostRight(e) /\ PostUnary(e) THEN "both" ELSE IF PostRight(e) THE
 
 Universe ==
   CASE Family = "d2" -> I2 \cup B2
-    [] Family = "d3" -> I3R \cup B3R
-    [] Family = "naive" -> I3R
+    [] Family \in {"d3", "naive"} -> {}          \* see InitD3
     [] Family = "t3" -> T3
     [] Family = "t3p" -> T3P
     [] Family = "comb" -> {Atom("a")}
 
 VARIABLES e, n, ok
 vars == <<e, n, ok>>
+\* depth 3 is enumerated from its top node (TLC would need very long to normalise the set of ~10^6 deep
+\* records; as initial-state disjuncts the trees are only fingerprinted)
+InitD3 == \/ e \in I2R \cup B2R
+          \/ \E op \in ArithOps, l \in I2R, r \in I2R : e = Bin(op, l, r)
+          \/ \E x \in I2R : e = Un("-", x)
+          \/ \E op \in CmpOps \cup EqOps, l \in I2R, r \in I2R : e = Bin(op, l, r)
+          \/ \E op \in EqOps \cup LogOps, l \in B1R, r \in B2R : e = Bin(op, l, r)
+          \/ \E op \in EqOps \cup LogOps, l \in B2R, r \in B1R : e = Bin(op, l, r)
+          \/ \E x \in B2R : e = Un("not", x)
 Init == /\ ok = "todo"
         /\ IF Family = "comb" THEN e = Atom("a") /\ n \in CombSizes \X {"L", "R"}
+           ELSE IF Family \in {"d3", "naive"} THEN InitD3 /\ n = <<0, "-">>
            ELSE e \in Universe /\ n = <<0, "-">>
 Tree == IF Family # "comb" THEN e ELSE IF n[2] = "L" THEN LeftComb(n[1]) ELSE RightComb(n[1])
 Verdict(t) ==
